@@ -15,6 +15,7 @@ interpretation of the settings prologue over all keyword scenarios);
 as_penalty.rnorm is the uncast Euclidean displacement.
 Round 5 (hunt): as_penalty measures the displacement on a copy (repair
 af222c8).
+Round 6: mystic.penalty takes log / inf from numpy.
 NOT decided: numeric values.
 """
 import ast
@@ -397,3 +398,18 @@ def constraint_as_penalty_measures_the_displacement(ctx):
     ctx.stats['terms_compared'] += len(got)
     ctx.check(got == want, 'as_penalty.rnorm', 'Euclidean distance between constraint(x) and x, no casts',
               'as_penalty.rnorm differs from its definition: %s' % SB.diff(got, want), f, f.node)
+
+
+@rule('C15.i', min_instances=2)
+def barrier_arithmetic_is_numpys(ctx):
+    """barrier_inequality evaluates log(-f): on the feasible-set boundary (f == 0) and beyond the value is -inf / nan under numpy's log, which the penalty turns into +inf ("violated"); math.log RAISES ValueError there. mystic.penalty binds `log` (and `inf`) from numpy - provenance of the module-level names the penalty formulas use"""
+    m = ctx.model.modules['mystic.penalty']
+    prov = {}
+    for st in m.tree.body:
+        if isinstance(st, ast.ImportFrom):
+            for a in st.names:
+                prov[a.asname or a.name] = st.module
+    for nm in ('log', 'inf'):
+        ctx.check(prov.get(nm) == 'numpy', 'mystic.penalty#%s' % nm, '%s is numpy.%s' % (nm, nm),
+                  'mystic.penalty takes `%s` from %s: math.log raises ValueError for an argument <= 0 where numpy.log gives -inf / nan, so barrier_inequality raises on the boundary of the feasible set instead of returning an infinite penalty'
+                  % (nm, prov.get(nm)), ctx.func('mystic.penalty:barrier_inequality'), m.tree.body[0])
